@@ -2,12 +2,18 @@
 
 Tie T: Gen/Universes.v is regenerated from configs/dimensions.yaml and configs/old_dimensions/*.yaml; Props/C12.v
        re-proves well-formedness and the exhaustive lookup-order theorem over it.
+       Gen/GroupGen.v is regenerated from the bodies of DimensionGroup.__new__ / lookup_order / union / intersection /
+       __eq__ / __le__ / issubset / isdisjoint / __hash__ and DimensionUniverse.sorted (harness/translators/group_algo.py);
+       Props/C12.v proves that the generated algorithms agree with the hand model in every well-formed universe.
 Tie K: (a) universe construction: real DimensionUniverse(elements, kinds, required, implied, always_join,
            populated_by, topology) vs Model/Group.v:build on the regenerated raw configuration;
        (b) groups: every subset of the non-skypix dimensions (exhaustive) + random subsets with skypix dimensions,
            join-table names and unknown names + conform("name"): names, required, implied, elements, governors,
            skypix, data_coordinate_keys, lookup_order vs Model/Universe.v:mkgroup;
-       (c) pairs of distinct groups: | & <= == hash isdisjoint vs gunion / ginter / gsubset / geqb / ghash.
+       (c) pairs of distinct groups: | & <= == hash isdisjoint vs gunion / ginter / gsubset / geqb / ghash
+           (cases are table indices: Model/GroupXCheck.v chk_pair_ix);
+       (d) the GENERATED algorithms vs the implementation: a sample of constructor cases (chk_gen_group, incl.
+           data_coordinate_keys) and n-ary union / intersection with 0..4 other operands + comparisons (chk_nary).
 Oracle: the property statement evaluated on the implementation's observations with an independent fixpoint
         computation over the universe's own required / implied sets (no model, no DimensionGroup code).
 """
@@ -18,6 +24,7 @@ import re
 from pathlib import Path
 
 from harness.common import VERIF, Ctx, cbool, clist, coq_make, cstr, parallel_workers, run_worker
+from harness.translators import group_algo as ga
 from harness.translators import universe as tr
 
 CUSTOM = {"deadlock"}
@@ -64,6 +71,11 @@ def c_elem(e) -> str:
 HDR = ("From Coq Require Import String List Bool NArith.\n"
        "From V Require Import Model.Universe Model.Group Model.GroupCheck Gen.Universes.\n"
        "Import ListNotations.\n")
+# checkers that evaluate the generated algorithms / use the group tables
+HDRX = ("From Coq Require Import String List Bool NArith.\n"
+        "From V Require Import Model.Universe Model.Group Model.GroupX Model.GroupCheck Gen.Universes Gen.GroupGen Model.GroupXCheck.\n"
+        "Import ListNotations.\n")
+CHUNK = 64          # Model/GroupXCheck.v: lk
 
 
 # ------------------------------------------------------------------------------------------------
@@ -215,7 +227,7 @@ def oracle_pairs(ctx: Ctx, sp: Spec, tag: str, res):
         if isinstance(row[3], str):
             ctx.oracle_fail("triple:raised", {"universe": tag, "row": row}, "n-ary union / intersection raised")
             continue
-        i, j, k, u3, ul, ur, i3, il, ir, dl, dr, ab1, ab2 = row
+        i, j, k, u3, ul, ur, i3, il, ir, dl, dr, ab1, ab2 = row[:13]
         A, B, C = tbl[i], tbl[j], tbl[k]
         rep = {"universe": tag, "op": "triple", "a": res["table"][i], "b": res["table"][j], "c": res["table"][k]}
         if not (u3 == ul == ur and tbl[u3] == sp.lfp(A | B | C)):
@@ -226,6 +238,26 @@ def oracle_pairs(ctx: Ctx, sp: Spec, tag: str, res):
             ctx.oracle_fail("triple:absorption", rep, "a | (a & b) or a & (a | b) is not a")
         if not tbl[dr] <= tbl[dl]:
             ctx.oracle_fail("triple:semidistributive", rep, "(a & b) | (a & c) is not below a & (b | c)")
+    for row in res.get("nary", []):
+        ctx.count()
+        i, js = row[0], row[1]
+        rep = {"universe": tag, "op": "nary", "a": res["table"][i], "others": [res["table"][j] for j in js]}
+        if isinstance(row[2], str):
+            ctx.oracle_fail("nary:raised", dict(rep, error=row[2]), "n-ary union / intersection raised")
+            continue
+        un, it, bools = row[2], row[3], row[4]
+        A = tbl[i]
+        U = sp.lfp(A.union(*[tbl[j] for j in js]))
+        I = sp.gcs(A.intersection(*[tbl[j] for j in js]))
+        if tbl[un] != U:
+            ctx.oracle_fail("nary:union", dict(rep, got=res["table"][un]), "a.union(*others) is not the least group containing every operand")
+        if tbl[it] != I:
+            ctx.oracle_fail("nary:intersection", dict(rep, got=res["table"][it]), "a.intersection(*others) is not the greatest group contained in every operand")
+        if js:
+            B = tbl[js[0]]
+            want = [A == B, A <= B, A <= B, not (A & B)]
+            if bools[:4] != want or (A == B and not bools[4]):
+                ctx.oracle_fail("nary:comparisons", dict(rep, got=bools), "== / <= / issubset / isdisjoint / hash disagree with the name sets")
 
 
 # ------------------------------------------------------------------------------------------------
@@ -304,6 +336,9 @@ class Acc:
     def __init__(self):
         self.names = set()
         self.g, self.c, self.p, self.u = [], [], [], []     # (render(N) -> str, meta)
+        self.gg, self.n = [], []                            # generated algorithms: constructor sample, n-ary operators
+        self.tables = {}                                    # universe ident -> (uvar, [names of group k])
+        self.pos = {}                                       # universe ident -> {names tuple: index in the table}
 
 
 def run_universe(ctx: Ctx, ident: str, uvar: str, results: list, acc: Acc):
@@ -334,8 +369,12 @@ def run_universe(ctx: Ctx, ident: str, uvar: str, results: list, acc: Acc):
                 oracle_group(ctx, sp, ident, o)
                 if len(o["names"]) > len(set(o["in"])) or o["implied"]:
                     ctx.nontrivial({"u": ident, "in": sorted(set(o["in"]))})
-        acc.g.append((lambda N, o=o: f"({uvar}, {N.lst(o['in'])}, {c_gobs(N, o)})",
-                      {"universe": ident, "in": o["in"], "observed": {k: o.get(k) for k in ("err", "names", "required", "implied", "lookup")}}))
+        case = (lambda N, o=o: f"({uvar}, {N.lst(o['in'])}, {c_gobs(N, o)})",
+                {"universe": ident, "in": o["in"], "observed": {k: o.get(k) for k in ("err", "names", "required", "implied", "lookup")}})
+        acc.g.append(case)
+        # the generated constructor on a sample: every error case, the hand-made universe, every 23rd other case
+        if custom or o.get("err") or len(acc.g) % 23 == 0:
+            acc.gg.append(case)
     for o in res0.get("conform", []):
         ctx.count()
         if not o.get("err") and not custom:
@@ -356,27 +395,69 @@ def run_universe(ctx: Ctx, ident: str, uvar: str, results: list, acc: Acc):
             A, B = set(tbl[i]), set(tbl[j])
             if not (A <= B or B <= A):
                 ctx.nontrivial({"u": ident, "a": tbl[i], "b": tbl[j]})
+        # pairs refer to the groups by index into ONE table per universe (Cases/C12/tables.v)
+        uv, gtab = acc.tables.setdefault(ident, (uvar, []))
+        pos = acc.pos.setdefault(ident, {})
+
+        def ix(names, gtab=gtab, pos=pos):
+            key = tuple(names)
+            k = pos.get(key)
+            if k is None:
+                k = pos[key] = len(gtab)
+                gtab.append(list(names))
+            return k
         for r in res["pairs"]:
-            acc.p.append((lambda N, r=r, tbl=tbl: f"({uvar}, {N.lst(tbl[r[0]])}, {N.lst(tbl[r[1]])}, ({N.lst(tbl[r[2]])}, {N.lst(tbl[r[3]])}, {clist(cbool(x) for x in r[4:])}))",
-                          (ident, tbl, r)))
+            a, b, un, it = (ix(tbl[r[k]]) for k in range(4))
+            acc.p.append((f"(T_{ident}, ({a}%N, {b}%N, {un}%N, {it}%N, {clist(cbool(x) for x in r[4:])}))", (ident, tbl, r)))
         ctx.hist("pairs", ident, len(res["pairs"]))
+        for row in res.get("nary", []):
+            if isinstance(row[2], str):
+                continue
+            acc.n.append((lambda N, row=row, tbl=tbl: f"({uvar}, {N.lst(tbl[row[0]])}, {clist(N.lst(tbl[j]) for j in row[1])}, "
+                                                       f"({N.lst(tbl[row[2]])}, {N.lst(tbl[row[3]])}), {clist(cbool(x) for x in row[4])})",
+                          {"universe": ident, "a": tbl[row[0]], "others": [tbl[j] for j in row[1]],
+                           "union": tbl[row[2]], "intersection": tbl[row[3]], "eq,le,issubset,isdisjoint,hash": row[4]}))
+        ctx.hist("nary", ident, len(res.get("nary", [])))
+
+
+def write_tables(ctx: Ctx, acc: Acc, N: Names) -> bool:
+    """Cases/C12/tables.v: per universe the table of distinct groups (two-level list) and, computed once by the model,
+    `required_of` of each; compiled once, the pair shards only `Require` it."""
+    body = [N.header(), "Open Scope list_scope."]
+    for ident, (uvar, gtab) in acc.tables.items():
+        chunks = [gtab[i:i + CHUNK] for i in range(0, len(gtab), CHUNK)]
+        body.append(f"Definition tbl_{ident} : table :=\n  " + clist(clist(N.lst(g) for g in ch) for ch in chunks) + ".")
+        body.append(f"Definition tblr_{ident} : table := Eval vm_compute in required_table {uvar} tbl_{ident}.")
+        body.append(f"Definition T_{ident} := ({uvar}, tbl_{ident}, tblr_{ident}).")
+    rc, out = ctx.coq_eval("tables", HDRX + "\n".join(body), "true", timeout=600)
+    if rc != 0:
+        ctx.tie_broken("correspondence", "tables", f"the group tables could not be compiled: {out[-800:]}")
+        return False
+    return True
 
 
 def evaluate_model(ctx: Ctx, acc: Acc):
     N = Names(acc.names)
     hdr = HDR + N.header()
-    for name, items, chk, shard in (("universes", acc.u, "chk_universe", 1), ("groups", acc.g, "chk_group", 900),
-                                    ("conform", acc.c, "chk_conform", 200), ("pairs", acc.p, "chk_pair", 6000)):
-        if not items:
+    hdrx = HDRX + N.header()
+    tables_ok = write_tables(ctx, acc, N) if acc.p else False
+    hdrp = HDRX + "From V Require Import Cases.C12.tables.\n"
+    chk_ix = "chk_pair_t"
+    for name, items, chk, shard, h in (("universes", acc.u, "chk_universe", 1, HDR), ("groups", acc.g, "chk_group", 900, hdr),
+                                       ("conform", acc.c, "chk_conform", 200, hdr), ("pairs", acc.p, chk_ix, 8000, hdrp),
+                                       ("gen_groups", acc.gg, "chk_gen_group", 300, hdrx), ("gen_nary", acc.n, "chk_nary", 400, hdrx)):
+        if not items or (name == "pairs" and not tables_ok):
             continue
         cases = [c if isinstance(c, str) else c(N) for c, _ in items]
-        bad = ctx.coq_cases(name, HDR if name == "universes" else hdr, cases, chk, shard=shard)
+        bad = ctx.coq_cases(name, h, cases, chk, shard=shard)
         for i in (bad or [])[:5]:
             meta = items[i][1]
             if name == "pairs":
                 ident, tbl, r = meta
                 meta = {"universe": ident, "a": tbl[r[0]], "b": tbl[r[1]], "union": tbl[r[2]], "inter": tbl[r[3]], "le,eq,hash,disjoint": r[4:]}
-            ctx.disagreement(name, meta, "the model differs from the implementation on this case")
+            ctx.disagreement(name, meta, "the model differs from the implementation on this case"
+                             if not name.startswith("gen_") else
+                             "the algorithm regenerated from the source (Gen/GroupGen.v) differs from the implementation on this case")
         k = len(cases) // 2
         meta = items[k][1]
         if name == "pairs":
@@ -386,7 +467,7 @@ def evaluate_model(ctx: Ctx, acc: Acc):
 
 
 def payloads_for(ctx: Ctx, ident: str, path: Path, *, exhaustive: bool, nrandom: int, pairs, triples: int, slices: int,
-                 extra_subsets=()):
+                 extra_subsets=(), nary: int = 0):
     base = {"path": str(path), "default": ident == "current", "seed": ctx.seed}
     # descriptions are needed to generate random subsets -> read them from the raw YAML (names only)
     raw = tr.read_raw(path)
@@ -397,7 +478,7 @@ def payloads_for(ctx: Ctx, ident: str, path: Path, *, exhaustive: bool, nrandom:
     names += [{"name": e["name"], "kind": "governor" if e["governor"] else ("dimension" if e["keys"] else "combination")}
               for e in raw["elements"]]
     subs = list(extra_subsets) + random_subsets(ctx.rng, names, nrandom)
-    out = [dict(base, exhaustive=exhaustive, subsets=subs, conform_names=True, pairs=0 if slices else pairs, triples=triples, slice=0)]
+    out = [dict(base, exhaustive=exhaustive, subsets=subs, conform_names=True, pairs=0 if slices else pairs, triples=triples, nary=nary, slice=0)]
     for k in range(slices):
         out.append(dict(base, exhaustive=exhaustive, subsets=[], light=True, pairs=pairs, pair_slice=[k, slices], triples=0, slice=k + 1))
     return out
@@ -407,7 +488,10 @@ def run(ctx: Ctx):
     ctx.assumptions += [
         "the YAML -> Gallina translator harness/translators/universe.py is trusted (its output, built by the model of "
         "DimensionConstructionBuilder, is compared element by element with the real DimensionUniverse on every run)",
-        "the group algorithm (Model/Universe.v) is a hand model of DimensionGroup.__new__ / lookup_order, tied by the exhaustive correspondence",
+        "the group algorithm (Model/Universe.v) is a hand model of DimensionGroup.__new__ / lookup_order, tied by the exhaustive correspondence "
+        "AND by theorem gen_new_agrees to Gen/GroupGen.v, which harness/translators/group_algo.py regenerates from the source on every run",
+        "the Python -> Gallina compiler harness/translators/group_algo.py and the meaning of the primitives in Model/GroupX.v are trusted "
+        "(the generated constructor / n-ary operators are compared with the real implementation on a sample of every run)",
         "Python set iteration order (to_expand.pop()) is modelled by list order; the theorems show the result does not depend on it",
     ]
     ctx.cov["rule"] = (
@@ -415,13 +499,16 @@ def run(ctx: Ctx):
         "non-skypix dimensions of the current universe (2^13) + random subsets containing skypix dimensions, join-table "
         "names, unknown names, duplicates + conform(name) for every element; pairs: every ordered pair of the distinct "
         "groups (thorough; a slice in quick) + random triples; older universes exhaustively in the thorough tier. "
+        "n-ary union / intersection with 0..4 other operands; a sample of the constructor cases and all n-ary cases also "
+        "through the algorithms regenerated from the source. "
         "A group case is non-trivial when the closure added a dimension or the group has an implied part; a pair is "
         "non-trivial when the two groups are incomparable"
     )
     gen_ok = ctx.regen("universe", tr.translate)
-    props_ok = ctx.build_props(extra_targets=["Model/GroupCheck.vo"])
+    algo_ok = ctx.regen("group_algo", ga.translate)
+    props_ok = ctx.build_props(extra_targets=["Model/GroupCheck.vo", "Model/GroupXCheck.vo"])
     if not props_ok:
-        coq_make(["Model/GroupCheck.vo", "Gen/Universes.vo"])
+        coq_make(["Model/GroupCheck.vo", "Gen/Universes.vo", "Model/GroupXCheck.vo"])
     try:
         srcs = tr.sources()
     except Exception as e:  # noqa: BLE001
@@ -447,11 +534,11 @@ def _main(ctx: Ctx, srcs, quick: bool, model: bool = True):
         if ident == "current":
             pl = payloads_for(ctx, ident, path, exhaustive=True, nrandom=2000 if quick else 6000,
                               pairs=40000 if quick else "all", triples=20000 if quick else 200000,
-                              slices=0 if quick else 3, extra_subsets=extra)
+                              slices=0 if quick else 3, extra_subsets=extra, nary=1200 if quick else 6000)
         elif quick:
-            pl = payloads_for(ctx, ident, path, exhaustive=False, nrandom=150, pairs=2000, triples=1000, slices=0, extra_subsets=extra)
+            pl = payloads_for(ctx, ident, path, exhaustive=False, nrandom=150, pairs=2000, triples=1000, slices=0, extra_subsets=extra, nary=60)
         else:
-            pl = payloads_for(ctx, ident, path, exhaustive=True, nrandom=1500, pairs="all", triples=20000, slices=2, extra_subsets=extra)
+            pl = payloads_for(ctx, ident, path, exhaustive=True, nrandom=1500, pairs="all", triples=20000, slices=2, extra_subsets=extra, nary=600)
         jobs.append((ident, uvar, pl))
     if model:
         for ident_raw, path in tr.custom_sources():
@@ -484,7 +571,8 @@ def _main(ctx: Ctx, srcs, quick: bool, model: bool = True):
         else:
             _oracle_only(ctx, ident, results)
     if model:
-        ctx.log(f"evaluating the model on {len(acc.g)} group, {len(acc.c)} conform, {len(acc.p)} pair, {len(acc.u)} universe cases")
+        ctx.log(f"evaluating the model on {len(acc.g)} group, {len(acc.c)} conform, {len(acc.p)} pair, {len(acc.u)} universe, "
+                f"{len(acc.gg)} generated-constructor, {len(acc.n)} n-ary cases")
         evaluate_model(ctx, acc)
 
 
@@ -515,8 +603,9 @@ def _replay(ctx: Ctx, srcs):
         ctx.tie_broken("harness", "replay", f"unknown universe {ident}")
         return
     subs = [rep[k] for k in ("in", "a", "b", "c") if isinstance(rep.get(k), list)]
+    subs += [x for x in rep.get("others", []) if isinstance(x, list)]
     st, r = run_worker("c12_impl", "observe", {"path": str(path), "default": ident == "current", "subsets": subs,
-                                                "conform_names": isinstance(rep.get("in"), str), "pairs": "all", "triples": 30,
+                                                "conform_names": isinstance(rep.get("in"), str), "pairs": "all", "triples": 30, "nary": 30,
                                                 "seed": ctx.seed}, timeout=300)
     if st == "hang":
         ctx.oracle_fail("worker:hang", rep, "the implementation did not return")
